@@ -635,6 +635,7 @@ pub fn gen_plan_case(ch: &mut Ch, prof: &Profile) -> PlanCase {
         space2,
         fault_persists: false,
         raw_space: ch.prob(prof.p_raw_space),
+        prm_timeout: None,
     }
 }
 
